@@ -132,6 +132,8 @@ func (in *inst) build(chain []layer, i int) error {
 		return &url.Error{Op: "Post", URL: "https://" + h + "/meek/", Err: in.build(chain, i+1)}
 	case "Wrap":
 		return fmt.Errorf("transport step failed: %w", in.build(chain, i+1))
+	case "SysWrap":
+		return os.NewSyscallError([]string{"connect", "read", "write"}[in.rng.Intn(3)], in.build(chain, i+1))
 	}
 	panic("unknown layer kind " + y.K)
 }
